@@ -120,6 +120,17 @@ def _key_atoms(F, k, w):
     return out, missing, keytabs
 
 
+def _disjuncts(c):
+    if c[0] == "or":
+        out = []
+        for x in c[1]:
+            out.extend(_disjuncts(x))
+        return out
+    if c[0] == "and":
+        return [c]
+    return [c]
+
+
 def match_cond_of(b, at):
     """Orientation: the condition (b.cond or its negation) in which the key atom is a positive top-level conjunct."""
     for c in (b.cond, c_not(b.cond)):
@@ -143,43 +154,55 @@ def rule_keyid(ctx):
             ctx.ob("keyid", k, mnode, src(k, mnode), "stored-key comparison feeds a decision the analysis can read", None,
                    "np.all(...) over a key table is not used directly in an if/boolean decision")
         done = set()
+        ACTIONS = ("store", "slicestore", "assign", "ret", "attrstore", "otherstore")
         for b, at, pol, cells, ops in atoms:
             if id(b.node) in done:
                 continue
             done.add(id(b.node))
             n += 1
-            mc, _ = match_cond_of(b, at)
             cons = src(k, (at[2] or {}).get("node") or b.node, 90)
-            goal = "key identity = bytes AND length: the match also compares key_lens[row, col] with the probe's length"
-            if mc is None:
-                ctx.ob("keyid", k, b.node, cons, goal, None, "the key comparison is not a top-level conjunct of the decision or of its negation")
-                continue
+            goal = "key identity = bytes AND length: whatever is done on a byte match is done only when key_lens[row, col] also equals the probe's length"
             cell = cells[0]
             idxkey = tuple(i.lin.key() for i in cell.index_nums())
             probe = [o for o in ops if o is not cell]
             other_cell = probe[0] if probe and isinstance(probe[0], ArrSlice) and probe[0].arr.name in keytabs else None
-            found = None
-            for x in conjuncts(mc):
+
+            def length_eq(x):
                 if x[0] != "eq":
-                    continue
+                    return False
                 lin = x[1]
                 ts = [t for t in lin.terms() if t[0] == "cell" and t[1] in lentabs and t[3] == idxkey]
                 if not ts:
-                    continue
+                    return False
                 if other_cell is not None:
                     # both stored lengths, one from each operand, same (row, col)
                     names = {t[1] for t in ts}
-                    own = {p for p, s in lentabs.items() if "key_lens" in s}
-                    oth = {p for p, s in lentabs.items() if "other.key_lens" in s}
-                    if names & own and names & oth and len(lin.terms()) == 2 and lin.k == 0:
-                        found = x
-                else:
-                    rest = [t for t in lin.terms() if t not in ts]
-                    if len(ts) == 1 and not any(t[0] == "cell" for t in rest):
-                        found = x
-            ctx.ob("keyid", k, b.node, cons, goal, found is not None,
-                   "" if found else "stored key bytes are compared without the stored length: keys differing only in length / trailing NULs are identified, and an all-NUL key matches an empty cell",
-                   proof=show_cond(found) if found else "")
+                    own = {p for p, s_ in lentabs.items() if "key_lens" in s_}
+                    oth = {p for p, s_ in lentabs.items() if "other.key_lens" in s_}
+                    return bool(names & own and names & oth and len(lin.terms()) == 2 and lin.k == 0)
+                rest = [t for t in lin.terms() if t not in ts]
+                return len(ts) == 1 and not any(t[0] == "cell" for t in rest)
+
+            def positive(entry):
+                return entry[0] is b.node and any(x[0] == "atom" and x[1] == at[1] for x in conjuncts(entry[2]))
+
+            def mentions(entry):
+                return entry[0] is b.node and any(a_[1] == at[1] for a_, _ in cond_atoms(entry[2]))
+
+            acts = [e for e in w.events if e.kind in ACTIONS and any(positive(en) for en in e.path)]
+            # a decision in which the byte comparison is neither a conjunct nor a negated disjunct cannot be read
+            unreadable = [e for e in w.events if e.kind in ACTIONS and any(mentions(en) and not positive(en)
+                          and not any(x[0] == "not" and x[1][0] == "atom" and x[1][1] == at[1] for x in _disjuncts(en[2])) for en in e.path)]
+            if unreadable and not acts:
+                ctx.ob("keyid", k, b.node, cons, goal, None, "the key comparison is not a top-level conjunct of the decision or of its negation")
+                continue
+            res = []
+            for e in acts:
+                found = next((x for en in e.path for x in conjuncts(en[2]) if length_eq(x)), None)
+                res.append((found is not None, show_cond(found) if found else
+                            "stored key bytes are compared without the stored length: keys differing only in length / trailing NULs are identified, "
+                            "and an all-NUL key matches an empty cell", fact_strs(e)))
+            agg(ctx, "keyid", k, b.node, cons, goal, res or [(True, "nothing is done on a byte match", [])])
     return n
 
 
@@ -565,6 +588,7 @@ def rule_maxcount(ctx):
     okk = isinstance(init, Num) and init.lin == Lin.const(0)
     ctx.ob("maxcount", k, loops[0], "%s (initial)" % acc, "running maximum starts at 0 (an absent key reports 0)", bool(okk) if isinstance(init, Num) else None)
     atoms, missing, keytabs = _key_atoms(F, k, w)
+    lentabs = {p for p, s_ in F.param_attr().get(k.key, {}).items() if s_ & {"key_lens"}}
     assigns = [e for e in w.events if e.kind == "assign" and e.name == acc and e.loops and e.loops[-1].node is lp.node]
     for g in group_by_node(assigns):
         res = []
@@ -588,14 +612,17 @@ def rule_maxcount(ctx):
         if not isinstance(a, Num):
             res.append((None, "accumulator not understood"))
             continue
+        # "this row's cell stores the key" == bytes equal AND stored length equal, wherever the kernel decides the two
         conds = []
         for b, at, pol, cells, ops in atoms:
-            mc, positive = match_cond_of(b, at)
-            if mc is None:
-                continue
-            for x in conjuncts(mc):
-                if x[0] in ("atom", "eq"):
-                    conds.append(x)
+            conds.append(("atom", at[1], at[2]))
+            idxkey = tuple(i.lin.key() for i in cells[0].index_nums())
+            for en in le.path:
+                for cc in (en[2], c_not(en[2])):
+                    for x in conjuncts(cc):
+                        if x[0] == "eq" and any(t[0] == "cell" and t[1] in lentabs and t[3] == idxkey for t in x[1].terms()) \
+                                and not any(show_cond(x) == show_cond(y) for y in conds):
+                            conds.append(x)
         st = w.refine(le, conds)
         if st.dead:
             res.append((True, "path excludes a match", fact_strs(le)))
